@@ -61,7 +61,8 @@ package broker
 //@   ensures [saved] err == nil ==> saved[dir][idOf(pkt)] == typecode(pkt)
 //@   ensures [others] err == nil ==> forall d int, i int {saved[d][i]} :: d != dir || i != idOf(pkt) ==> saved[d][i] == old(saved[d][i])
 //@   ensures [fail] err != nil ==> saved == old(saved)
-//@   modifies saved, storedobj
+//@   ensures [counted] nsavedout == old(nsavedout) + (err == nil && dir == 1 ? 1 : 0) && nsavefail == old(nsavefail) + (err != nil ? 1 : 0)
+//@   modifies saved, storedobj, nsavedout, nsavefail
 //@ interface Session.LookupPacket(dir session.Direction, id packet.ID) (pkt packet.Generic, err error)
 //@   ensures [found] err == nil ==> typecode(pkt) == saved[dir][id] && (pkt == nil <==> saved[dir][id] == 0)
 //@   ensures [obj] err == nil && pkt != nil ==> as(pkt, *packet.Publish) != nil && idOf(pkt) == id
@@ -102,11 +103,19 @@ package broker
 //@   requires [msg] msg != nil
 //@   ensures npublish == old(npublish) + 1 && pubmsg == msg && puback == ack
 //@   modifies npublish, pubmsg, puback
+// ndeqq: QoS>0 messages taken from the backend's queues; nsavedout / nsavefail:
+// successful saves to the outgoing store / failed saves. A message taken from
+// the queue exists only in the dequeuer until it is saved: the dequeuer never
+// leaves with one it has not recorded.
+//@ ghost ndeqq int
+//@ ghost nsavedout int
+//@ ghost nsavefail int
 //@ interface Backend.Dequeue(client *Client) (msg *packet.Message, ack Ack, err error)
 //@   requires [token-held] dtok > npubq
 //@   ensures ndequeue == old(ndequeue) + 1
 //@   ensures [qos] err == nil && msg != nil ==> msg.QOS <= 2
-//@   modifies ndequeue
+//@   ensures [taken] ndeqq == old(ndeqq) + (err == nil && msg != nil && msg.QOS > 0 ? 1 : 0)
+//@   modifies ndequeue, ndeqq
 //@ interface Backend.Terminate(client *Client) (err error)
 //@   ensures nterminate == old(nterminate) + 1
 //@   modifies nterminate
@@ -241,14 +250,14 @@ package broker
 //@   ensures [one-token] old(dtok) - 1 <= dtok && dtok <= old(dtok)
 //@   ensures [incoming] old(incoming_ok()) ==> incoming_ok()
 //@   ensures [others] err == nil ==> forall d int, i int {saved[d][i]} :: d != 1 || i != id ==> saved[d][i] == old(saved[d][i])
-//@   modifies saved, dtok, nclose, tdying[c.tomb], storedobj
+//@   modifies saved, dtok, nclose, tdying[c.tomb], storedobj, nsavedout, nsavefail
 //
 //@ func (c *Client) processPubrec(id packet.ID) (err error)
 //@   requires [client] connected(c)
 //@   ensures [pubrel] err == nil ==> saved[1][id] == 6 && nsent[6] == old(nsent[6]) + 1 && lastid[6] == id
 //@   ensures [no-connack] nsent[2] == old(nsent[2]) && nsentall <= old(nsentall) + 1
 //@   ensures [incoming] old(incoming_ok()) ==> incoming_ok()
-//@   modifies saved, nsent, nsentall, sentseq, lastid, connack_sp, connack_code, nnodup, npubq, nclose, tdying[c.tomb], storedobj
+//@   modifies saved, nsent, nsentall, sentseq, lastid, connack_sp, connack_code, nnodup, npubq, nclose, tdying[c.tomb], storedobj, nsavedout, nsavefail
 //
 //@ func (c *Client) processPublish(publish *packet.Publish) (err error)
 //@   requires [client] connected(c)
@@ -260,7 +269,7 @@ package broker
 //@   ensures [no-direct-ack] nsent[4] == old(nsent[4]) && nsent[7] == old(nsent[7]) && nqueued == old(nqueued)
 //@   ensures [no-connack] nsent[2] == old(nsent[2]) && nsentall <= old(nsentall) + 1
 //@   ensures [incoming] old(incoming_ok()) ==> incoming_ok()
-//@   modifies saved, nsent, nsentall, sentseq, lastid, connack_sp, connack_code, nnodup, npubq, npublish, pubmsg, puback, ptok, nclose, tdying[c.tomb], ptry, storedobj
+//@   modifies saved, nsent, nsentall, sentseq, lastid, connack_sp, connack_code, nnodup, npubq, npublish, pubmsg, puback, ptok, nclose, tdying[c.tomb], ptry, storedobj, nsavedout, nsavefail
 //
 //@ func (c *Client) processPubrel(id packet.ID) (err error)
 //@   requires [client] connected(c)
@@ -286,7 +295,7 @@ package broker
 //@ func (c *Client) acker() (err error)
 //@   requires [client] connected(c)
 //@   ensures [err] err != nil
-//@   modifies saved, nsent, nsentall, sentseq, lastid, connack_sp, connack_code, nnodup, npubq, ptok, stok, stry, ptry, nclose, tdying[c.tomb], storedobj
+//@   modifies saved, nsent, nsentall, sentseq, lastid, connack_sp, connack_code, nnodup, npubq, ptok, stok, stry, ptry, nclose, tdying[c.tomb], storedobj, nsavedout, nsavefail
 //@   loop 1 invariant [tokens-returned] stry - old(stry) == (nsent[9] - old(nsent[9])) + (nsent[11] - old(nsent[11])) && ptry - old(ptry) == (nsent[4] - old(nsent[4])) + (nsent[7] - old(nsent[7]))
 //
 // dequeuer: tokens held by this invocation are never fewer than the QoS>0
@@ -297,8 +306,10 @@ package broker
 //@   requires [client] connected(c)
 //@   requires [ghost-init] dtok == 0 && npubq == 0
 //@   ensures [err] err != nil
-//@   modifies saved, dtok, dtry, ndequeue, nsent, nsentall, sentseq, lastid, connack_sp, connack_code, nnodup, npubq, nclose, tdying[c.tomb], storedobj
+//@   modifies saved, dtok, dtry, ndequeue, nsent, nsentall, sentseq, lastid, connack_sp, connack_code, nnodup, npubq, nclose, tdying[c.tomb], storedobj, nsavedout, nsavefail, ndeqq
+//@   ensures [dequeued-are-recorded] ndeqq - old(ndeqq) <= nsavedout - old(nsavedout) + nsavefail - old(nsavefail)
 //@   loop 1 invariant [window] dtok >= npubq
+//@   loop 1 invariant [recorded] ndeqq - old(ndeqq) == nsavedout - old(nsavedout) && nsavefail == old(nsavefail)
 //
 //@ func (c *Client) processConnect(pkt *packet.Connect) (err error)
 //@   requires [client] client_ok(c) && pkt != nil
@@ -339,7 +350,7 @@ package broker
 //@   ensures [one-reply] nsentall <= old(nsentall) + 1 && nsent[2] == old(nsent[2])
 //@   ensures [incoming-kept] incoming_ok()
 //@   ensures [disconnect] typecode(pkt) == 14 ==> err != nil && c.will == nil && c.state == 2
-//@   modifies c.will, c.state, saved, nsent, nsentall, sentseq, lastid, connack_sp, connack_code, nnodup, npubq, npublish, pubmsg, puback, nsubscribe, nunsubscribe, ptok, stok, dtok, nclose, tdying[c.tomb], stry, ptry, storedobj
+//@   modifies c.will, c.state, saved, nsent, nsentall, sentseq, lastid, connack_sp, connack_code, nnodup, npubq, npublish, pubmsg, puback, nsubscribe, nunsubscribe, ptok, stok, dtok, nclose, tdying[c.tomb], stry, ptry, storedobj, nsavedout, nsavefail
 //
 // processSubscribe: the SUBACK released through the backend's ack carries the
 // request's id and one return code per requested filter, in request order.
@@ -413,7 +424,7 @@ package broker
 //@   ensures [connect-first] nauth == old(nauth) ==> nsentall == old(nsentall) && nsetup == old(nsetup) && npublish == old(npublish) && nsubscribe == old(nsubscribe) && nunsubscribe == old(nunsubscribe) && saved == old(saved) && c.will == old(c.will) && c.state == old(c.state)
 //@   ensures [accept-first] nsetup == old(nsetup) ==> npublish == old(npublish) && nsubscribe == old(nsubscribe) && nunsubscribe == old(nunsubscribe) && saved == old(saved) && c.will == old(c.will) && nsentall <= old(nsentall) + 1
 //@   ensures [one-connack] nsent[2] <= 1
-//@   modifies c.id, c.state, c.session, c.will, c.MaximumKeepAlive, c.ParallelPublishes, c.ParallelSubscribes, c.InflightMessages, c.TokenTimeout, c.PacketCallback, c.Ref, c.publishTokens, c.subscribeTokens, c.dequeueTokens, c.ackQueue, any(packet.Publish.Dup), nauth, authok, nsetup, setup_resumed, nrestore, nall, saved, nsent, nsentall, sentseq, lastid, connack_sp, connack_code, nnodup, npubq, npublish, pubmsg, puback, nsubscribe, nunsubscribe, dtok, dtry, ptok, stok, nclose, tdying[c.tomb], tstarted[c.tomb], stry, ptry, storedobj
+//@   modifies c.id, c.state, c.session, c.will, c.MaximumKeepAlive, c.ParallelPublishes, c.ParallelSubscribes, c.InflightMessages, c.TokenTimeout, c.PacketCallback, c.Ref, c.publishTokens, c.subscribeTokens, c.dequeueTokens, c.ackQueue, any(packet.Publish.Dup), nauth, authok, nsetup, setup_resumed, nrestore, nall, saved, nsent, nsentall, sentseq, lastid, connack_sp, connack_code, nnodup, npubq, npublish, pubmsg, puback, nsubscribe, nunsubscribe, dtok, dtry, ptok, stok, nclose, tdying[c.tomb], tstarted[c.tomb], stry, ptry, storedobj, nsavedout, nsavefail
 //@   loop 1 invariant [serving] connected(c) && incoming_ok() && nauth == old(nauth) + 1 && nsetup == old(nsetup) + 1 && nsent[2] == 1
 //
 //@ func NewClient(backend Backend, conn transport.Conn) (c *Client)
